@@ -293,6 +293,9 @@ static void RunCase(long k, const std::string & line)
    // with several subscribers and small max-items the split points of a client's updates depend on the iteration order of the
    // pooled subscriber tables (ImmutableHashtablePool cache), which the model does not reproduce; the net effect does not.
    const bool netMode = (bar > 0)&&(line[0] == 'x');
+   // label starting with 'z': the "malformed path" stream (paths / patterns with empty clauses, e.g. a trailing '/').  The mirror
+   // oracle is not applied there (PathMatcher::MatchesPath tokenises away empty clauses); the refcount oracle below always is.
+   const bool malformed = (bar > 0)&&(line[0] == 'z');
    W w;
    Ctx c; c.w = &w; c.quietUsed = false;
    int j = -1;
@@ -433,8 +436,33 @@ static void RunCase(long k, const std::string & line)
       o << "}";
       printf("%ld %s\n", k, o.str().c_str());
 
+      // ---- the refcount oracle (refcount_inv on the implementation): every node's subscriber table holds, for every attached
+      //      session, the number of that session's subscription entries that match the node (brute force over the entries),
+      //      and nothing for anybody else
+      {
+         std::string why;
+         for (size_t ni=0; (why.empty())&&(ni<col.nodes.size()); ni++)
+         {
+            DataNode & n = *col.nodes[ni];
+            String np; (void) n.GetNodePath(np);
+            const Hashtable<uint32, uint32> & tb = n.GetSubscribers();
+            for (size_t ci=0; (why.empty())&&(ci<w.NumSessions()); ci++) if (w.alive(ci))
+            {
+               const uint32 have = tb[w.RealID(ci)];
+               const uint32 want = w.session(ci)._subscriptions.GetMatchCount(n, NULL, 0);
+               if (have != want) why = "refcount op#" + itos(j) + " c" + itos((long)ci) + " " + CanonPath(w, np()) + " table=" + itos(have) + " entries=" + itos(want);
+            }
+            for (ConstHashtableIterator<uint32, uint32> it(tb); (why.empty())&&(it.HasData()); it++)
+            {
+               const long k2 = (long)it.GetKey() - (long)w.RealID(0);
+               if ((k2 < 0)||(k2 >= (long)w.NumSessions())||(!w.alive((size_t)k2))) why = "refcount-stale op#" + itos(j) + " c" + itos(k2) + " " + CanonPath(w, np());
+            }
+         }
+         if (!why.empty()) printf("%ld ORACLE FAIL %s\n", k, why.c_str());
+      }
+
       // ---- the oracle: mirror == brute force over the real tree
-      for (size_t ci=0; ci<w.NumSessions(); ci++) if ((w.alive(ci))&&(!c.quietUsed)&&(!c.cs[ci].tainted))
+      for (size_t ci=0; ci<w.NumSessions(); ci++) if ((!malformed)&&(w.alive(ci))&&(!c.quietUsed)&&(!c.cs[ci].tainted))
       {
          ClientState & me = c.cs[ci];
          const std::string ownRoot = "/H/" + itos((long)ci);
